@@ -15,7 +15,7 @@ The extent lists are also judged by the proved Coq function Model.Wellformed.ext
 C05_extents_ok_sound / _complete) and must agree with the Python sweep; the Coq models of CRC-32 and lookup3
 are evaluated on checksum-covered byte ranges taken from the files and compared with the stored values.
 """
-import collections, json, os, shutil
+import collections, hashlib, json, os, shutil
 import vlib, histlib, histgen, h5spec
 from histlib import ESZ, SIGNED, UNLIMITED, prod, hx
 
@@ -62,17 +62,17 @@ def cases_for(rng, tier):
     q = tier == "quick"
     cases = []
     sbv = lambda: rng.choice([0, 2, 3])
-    for i in range(170 if q else 6000):
+    for i in range(450 if q else 6000):
         cases.append({"sb": sbv(), "ops": single_dataset(rng, i), "gen": "single"})
-    for i in range(110 if q else 4000):
+    for i in range(300 if q else 4000):
         cases.append({"sb": sbv(), "ops": histgen.gen_mixed(rng, nops=rng.choice([12, 30, 60]), fail_rate=0.08), "gen": "mixed"})
-    for i in range(50 if q else 2000):
+    for i in range(120 if q else 2000):
         cases.append({"sb": sbv(), "ops": histgen.gen_mixed(rng, nops=rng.choice([30, 60]), sessions=rng.choice([2, 3]), fail_rate=0.05), "gen": "sessions"})
-    for i in range(70 if q else 3000):
+    for i in range(200 if q else 3000):
         cases.append({"sb": sbv(), "ops": c02.one_history(rng, rng.choice([3, 8, 15, 30, 60, 120])), "gen": "attrs"})
-    for i in range(50 if q else 2000):
+    for i in range(130 if q else 2000):
         cases.append({"sb": sbv(), "ops": c03.one_history(rng), "gen": "tree"})
-    for i in range(70 if q else 3000):
+    for i in range(180 if q else 3000):
         cases.append({"sb": sbv(), "ops": c13.one_history(rng), "gen": "resize"})
     # fixed corner cases: empty file, never-written datasets, full symbol table node
     for sb in (0, 2, 3):
@@ -81,6 +81,78 @@ def cases_for(rng, tier):
                                                           {"op": "mkds", "path": "/m", "dtype": "float32", "dims": [2, 2]}]})
         cases.append({"sb": sb, "gen": "corner", "ops": [{"op": "mkds", "path": "/e%02d" % (31 - i), "dtype": "uint8", "dims": [1]} for i in range(34)]})
     return cases
+
+
+VLEN_BASE = {"str": (3, 1, False), "i32": (0, 4, True), "i64": (0, 8, True), "u32": (0, 4, False), "u64": (0, 8, False),
+             "f32": (1, 4, False), "f64": (1, 8, False)}
+
+
+def vlen_cases(rng, n):
+    """variable-length datasets (global heap collections); only reachable through the c05vlen harness subcommand"""
+    out = []
+    for i in range(n):
+        dss = []
+        for j in range(rng.choice([1, 1, 2, 3])):
+            kind = rng.choice(list(VLEN_BASE))
+            dims = histgen.rand_shape(rng, maxrank=2, maxelems=rng.choice([6, 40, 300]))
+            bsz = VLEN_BASE[kind][1]
+            vals = []
+            for _ in range(prod(dims)):
+                ln = rng.choice([0, 1, 2, 3, 7, 8, 9, rng.randint(0, 40), rng.choice([100, 500, 5000]) if rng.random() < 0.05 else 4])
+                if kind == "str":
+                    vals.append(bytes(rng.randint(1, 255) for _ in range(ln)).hex())
+                else:
+                    vals.append(bytes(rng.getrandbits(8) for _ in range(ln * bsz)).hex())
+            d = {"path": "/v%d" % j, "kind": kind, "dims": dims, "vals": vals}
+            if rng.random() < 0.4:
+                d["chunk"] = [max(1, min(x, rng.choice([1, 2, 3, x]))) for x in dims]
+            dss.append(d)
+        out.append({"sb": rng.choice([0, 2, 3]), "datasets": dss, "gen": "vlen"})
+    return out
+
+
+def judge_vlen(case, r):
+    problems = []
+    if "results" not in r or not r.get("file"):
+        return dict(problems=["harness: %s" % str(r)[:300]], tags={}, res=None, harness=True)
+    if not r["create"].get("ok") or not r["close"].get("ok"):
+        return dict(problems=["create: CreateForWrite/Close failed: %r %r" % (r["create"], r.get("close"))], tags={}, res=None)
+    res = h5spec.walk(r["file"])
+    for a, b in h5spec.overlaps(res["extents"])[:4]:
+        problems.append("overlap: %s of %s at [%d,%d) overlaps %s of %s at [%d,%d)" % (a[2], a[3], a[0], a[1], b[2], b[3], b[0], b[1]))
+    for e in res["errors"][:6]:
+        problems.append("consistency: " + e)
+    objs = res["tree"]["objects"]
+    root = objs.get(res["tree"]["root"]) or {}
+    want = {}
+    for d, x in zip(case["datasets"], r["results"] or []):
+        if x.get("panic"):
+            problems.append("panic: creating/writing %s panicked: %s" % (d["path"], x["panic"][:200]))
+        elif x.get("ok"):
+            want[d["path"][1:].encode()] = d
+        elif x.get("err", "").startswith("write:"):
+            want[d["path"][1:].encode()] = dict(d, vals=None)
+    if set(root.get("children", {})) != set(want):
+        problems.append("tree: root group lists %s, expected %s" % (sorted(root.get("children", {})), sorted(want)))
+    for nm, d in want.items():
+        nd = objs.get(root.get("children", {}).get(nm))
+        if nd is None or "error" in nd:
+            continue
+        dt = nd.get("dt") or {}
+        if nd["kind"] != "dataset" or dt.get("cls") != 9 or dt.get("vlen") != ("string" if d["kind"] == "str" else "sequence") or \
+           type_of(dt["base"]) != VLEN_BASE[d["kind"]]:
+            problems.append("data: %s decodes as %s with datatype %s, written variable-length %s" % (d["path"], nd["kind"], {k: v for k, v in dt.items() if k != "base"}, d["kind"]))
+            continue
+        if list(nd["dims"]) != list(d["dims"]) or (nd["layout"] == "chunked") != ("chunk" in d):
+            problems.append("data: %s has shape %s layout %s, created %s %s" % (d["path"], nd["dims"], nd["layout"], d["dims"], d.get("chunk")))
+            continue
+        if d["vals"] is not None and [x.hex() for x in nd["vlen"]] != d["vals"]:
+            i = next((i for i, (a, b) in enumerate(zip(nd["vlen"], d["vals"])) if a.hex() != b), -1)
+            problems.append("data: variable-length dataset %s decodes to different elements than were written (first difference at element %d)" % (d["path"], i))
+    tags = {}
+    for t, wh, de in res["deviations"]:
+        tags.setdefault(t, (wh, de))
+    return dict(problems=problems, tags=tags, res=res)
 
 
 # ----------------------------------------------------------------------------- judgement of one file
@@ -203,6 +275,12 @@ def judge_file(case, r):
 
 
 def run_one(H, case):
+    if "datasets" in case:
+        r = vlib.run_harness(H, "c05vlen", [dict(sb=case["sb"], datasets=case["datasets"], dir=BUILD_DIR)])[0]
+        j = judge_vlen(case, r)
+        if r.get("file"):
+            shutil.rmtree(os.path.dirname(r["file"]), ignore_errors=True)
+        return r, j
     c = dict(sb=case["sb"], ops=case["ops"], config=case.get("config", ""), dir=BUILD_DIR, keep=True, nodata=True)
     r = vlib.run_harness(H, "hist", [c])[0]
     j = judge_file(case, r)
@@ -212,6 +290,17 @@ def run_one(H, case):
 
 
 def shrink(H, case, pred, budget=120):
+    if "datasets" in case:
+        best = case
+        for d in case["datasets"]:
+            c1 = dict(case, datasets=[d])
+            try:
+                if pred(run_one(H, c1)[1]):
+                    best = c1
+                    break
+            except Exception:
+                pass
+        return best
     ops = list(case["ops"])
     tries = 0
     def bad(o):
@@ -301,6 +390,8 @@ def run(ctx):
         return dict(violations=[dict(what="the library kills the process while replaying a history (%s)" % first.strip()[:200],
                                      failing_input=dict(sb=c1["sb"], ops=c1["ops"]), stderr=msg[-1500:])], known=[],
                     coverage=dict(evaluations=len(cases), distinct_nontrivial=0, rule="aborted: process crash", samples=[]))
+    vcases = vlen_cases(rng, 100 if ctx.tier == "quick" else 1500)
+    vres = vlib.run_harness_parallel(H, "c05vlen", [dict(sb=c["sb"], datasets=c["datasets"], dir=BUILD_DIR) for c in vcases])
     listed = known_tags()
     viol, tagcount, tagwit = [], collections.Counter(), {}
     kinds, sbs, gens = collections.Counter(), collections.Counter(), collections.Counter()
@@ -309,18 +400,21 @@ def run(ctx):
     samples, vectors = [], []
     nfiles = nextents = 0
     try:
-        for c, r in zip(cases, results):
-            j = judge_file(c, r)
+        for c, r in list(zip(cases, results)) + list(zip(vcases, vres)):
+            j = judge_vlen(c, r) if "datasets" in c else judge_file(c, r)
             if j.get("harness"):
                 viol.append(dict(what="hist harness failed on a case: " + j["problems"][0], case=c, nofail=True, correspondence="harness/hist"))
                 continue
             nfiles += 1
             sbs[c["sb"]] += 1
             gens[c["gen"]] += 1
-            nsucc = sum(1 for o, x in zip(c["ops"], r["results"]) if x.get("ok") and o["op"] not in ("close", "dump", "reopen"))
-            if nsucc >= 2:
-                nontrivial.add(r["final"].get("sha") or json.dumps(c["ops"], sort_keys=True))
+            if "datasets" in c:
+                nsucc = 2 * sum(1 for x in (r["results"] or []) if x.get("ok"))
+            else:
+                nsucc = sum(1 for o, x in zip(c["ops"], r["results"]) if x.get("ok") and o["op"] not in ("close", "dump", "reopen"))
             res = j["res"]
+            if nsucc >= 2 and res is not None:
+                nontrivial.add(hashlib.sha256(res["data"]).hexdigest())
             if res is not None:
                 nextents += len(res["extents"])
                 for e in res["extents"]:
@@ -349,13 +443,13 @@ def run(ctx):
         small = shrink(H, c, lambda g: any(p.startswith(key) for p in g["problems"]))
         r2, j2 = run_one(H, small)
         pr = j2["problems"] or j["problems"]
-        viol.append(dict(what="%s (history of %d ops, shrunk to %d; %d of %d files fail)" % (pr[0], len(c["ops"]), len(small["ops"]), nbad, nfiles),
-                         failing_input=dict(sb=small["sb"], ops=small["ops"]), findings=pr[:8], impl_results=r2.get("results"),
+        viol.append(dict(what="%s (history of %d ops, shrunk to %d; %d of %d files fail)" % (pr[0], len(c.get("ops") or c.get("datasets")), len(small.get("ops") or small.get("datasets")), nbad, nfiles),
+                         failing_input={k: small[k] for k in ("sb", "ops", "datasets") if k in small}, findings=pr[:8], impl_results=r2.get("results"),
                          replay_hint="python3 tools/check.py C05 --replay <this file>"))
     for t, (c, wh, de) in sorted(first_unlisted.items()):
         small = shrink(H, c, lambda g, t=t: t in g["tags"], budget=60)
         viol.append(dict(what="format deviation '%s' is not listed in KNOWN_FINDINGS.json for C05: %s: %s" % (t, wh, de[:200]),
-                         failing_input=dict(sb=small["sb"], ops=small["ops"]), tag=t, files_with_tag=tagcount[t]))
+                         failing_input={k: small[k] for k in ("sb", "ops", "datasets") if k in small}, tag=t, files_with_tag=tagcount[t]))
     known_lines = []
     for t, e in sorted(listed.items()):
         if tagcount.get(t):
@@ -385,7 +479,8 @@ def run(ctx):
                rule="one evaluation = one closed file written by the real library from a generated API history, walked by the independent decoder "
                     "(bounds, disjointness, consistency, decoded tree == oracle, deviation tags within the known list); a file is non-trivial when at least two "
                     "mutating calls succeeded; distinct = distinct file contents (sha256)",
-               samples=[dict(sb=c["sb"], gen=c["gen"], ops=[histcheck_short(o) for o in c["ops"][:8]], nops=len(c["ops"])) for c in cases[:1] + cases[200:201]],
+               samples=[dict(sb=c["sb"], gen=c["gen"], ops=[histcheck_short(o) for o in c["ops"][:8]], nops=len(c["ops"])) for c in cases[:1] + cases[200:201]] +
+                       [dict(sb=c["sb"], gen="vlen", datasets=[dict(d, vals=d["vals"][:3]) for d in c["datasets"][:2]]) for c in vcases[:1]],
                superblock_versions=dict(sbs), generators=dict(gens), extents_total=nextents, structure_kinds=dict(kinds),
                deviation_tags=dict(tagcount), files_failing=nbad, coq_extent_lists=len(samples), coq_checksum_vectors=len(vectors),
                checksum_vector_algos=dict(collections.Counter(a for a, b, s in vectors)),
